@@ -670,10 +670,11 @@ Qed.
 Lemma typed_decl_ok s : okP (pos s - 1) (parse_typed_decl B s).
 Proof.
   unfold parse_typed_decl.
-  set (s1 := adv (adv (snd (passert T_IDENT s)))).
+  set (s1 := adv (snd (passert T_COLON (adv (snd (passert T_IDENT s)))))).
   assert (H1 : pos s1 <= pos s - 1).
-  { unfold s1. pose proof (pos_adv (adv (snd (passert T_IDENT s)))). pose proof (pos_adv (snd (passert T_IDENT s))).
-    rewrite pos_passert in *. lia. }
+  { unfold s1. pose proof (pos_adv (snd (passert T_COLON (adv (snd (passert T_IDENT s)))))).
+    pose proof (pos_adv (snd (passert T_IDENT s))).
+    rewrite !pos_passert in *. lia. }
   destruct (p_type_ok s1) as (t & s2 & Q1 & Q2). rewrite Q1.
   destruct t; do 2 eexists; (split; [reflexivity|]); try rewrite pos_serr_at; lia.
 Qed.
